@@ -235,6 +235,27 @@ impl HintInstance {
     }
 }
 
+#[cfg(googlefonts_fontations_verif)]
+impl HintInstance {
+    /// Canonical rendering of the complete instance state, for the
+    /// out-of-tree verification harness. Adds no behaviour.
+    pub fn verif_state(&self) -> alloc::string::String {
+        alloc::format!(
+            "functions={:?} instructions={:?} cvt={:?} storage={:?} graphics={:?} twilight_scaled={:?} twilight_original_scaled={:?} twilight_flags={:?} axis_count={} max_stack={}",
+            self.functions,
+            self.instructions,
+            self.cvt,
+            self.storage,
+            self.graphics,
+            self.twilight_scaled,
+            self.twilight_original_scaled,
+            self.twilight_flags,
+            self.axis_count,
+            self.max_stack
+        )
+    }
+}
+
 #[cfg(test)]
 impl HintInstance {
     /// Enable instruct control bit 1 which effectively disables hinting.
